@@ -536,6 +536,20 @@ func c12OneRemovalPerRequest(c *core.Ctx) {
 		// the search loop: the innermost loop around the test that guards the removal (a removal
 		// followed by `break` is not itself part of that loop's body)
 		var l *core.Loop
+		// the position removed is the induction variable of the search loop; when it is instead the answer
+		// of a search done elsewhere (`i := lastIndexOf(list, v)`), one evaluation removes one position
+		if ph, isPhi := cc.Args[1].(*ssa.Phi); isPhi {
+			for _, lp := range core.Loops(fn) {
+				if lp.Header == ph.Block() {
+					l = lp
+				}
+			}
+		} else if call, isCall := cc.Args[1].(*ssa.Call); isCall && call.Call.StaticCallee() != nil && call.Call.StaticCallee().Pkg == fn.Pkg {
+			n++
+			c.Analysed(fname(call.Call.StaticCallee()))
+			c.Pass("C12/one-removal-per-request", fmt.Sprintf("removeValidatorsFromList/removal#%d", n), in.Pos(), "the position removed is the single answer of "+call.Call.StaticCallee().Name()+": one removal per request")
+			return
+		}
 		for d := in.Block(); d != nil && l == nil; d = d.Idom() {
 			if _, isIf := d.Instrs[len(d.Instrs)-1].(*ssa.If); isIf && d != in.Block() {
 				l = core.InnermostLoop(fn, d)
